@@ -68,8 +68,9 @@ Definition dirlists_equal (l1 l2 : list dirapp) : bool :=
 Definition merge_argdef (ignore_default : bool) (p n : argdef) : res argdef :=
   if negb (types_equal (ad_type p) (ad_type n)) then Err "types"
   else if negb ignore_default && negb (values_equal (ad_default p) (ad_default n)) then Err "default"
+  else if negb (dirlists_equal (ad_dirs p) (ad_dirs n)) then Err "inconsistent directives"
   else Ok {| ad_name := ad_name p; ad_desc := first_desc (ad_desc p) (ad_desc n);
-             ad_type := ad_type p; ad_default := ad_default p |}.
+             ad_type := ad_type p; ad_default := ad_default p; ad_dirs := ad_dirs p |}.
 
 Fixpoint res_map {A B} (f : A -> res B) (l : list A) : res (list B) :=
   match l with
@@ -98,15 +99,6 @@ Definition with_desc_fields (d : definition) (desc : string) (fs : list fielddef
   {| df_kind := df_kind d; df_name := df_name d; df_desc := desc; df_fields := fs;
      df_ifaces := df_ifaces d; df_members := df_members d; df_enums := df_enums d; df_dirs := df_dirs d |}.
 
-(* mergeInterfaces *)
-Definition merge_interfaces (p n : definition) : res definition :=
-  if negb (Nat.eqb (length (df_fields p)) (length (df_fields n))) then Err "inconsistent number of fields"
-  else fs <- res_map (fun f => match find_field (fd_name f) (df_fields n) with
-                               | None => Err "could not find field"
-                               | Some g => merge_field f g
-                               end) (df_fields p) ;;
-       Ok (with_desc_fields p (first_desc (df_desc p) (df_desc n)) fs).
-
 (* mergeInterfaceNames: union, sorted *)
 Fixpoint insert_sorted (x : string) (l : list string) : list string :=
   match l with
@@ -115,6 +107,18 @@ Fixpoint insert_sorted (x : string) (l : list string) : list string :=
   end.
 Definition sort_union (a b : list string) : list string :=
   fold_right insert_sorted [] (a ++ b).
+
+(* mergeInterfaces *)
+Definition merge_interfaces (p n : definition) : res definition :=
+  if negb (Nat.eqb (length (df_fields p)) (length (df_fields n))) then Err "inconsistent number of fields"
+  else fs <- res_map (fun f => match find_field (fd_name f) (df_fields n) with
+                               | None => Err "could not find field"
+                               | Some g => merge_field f g
+                               end) (df_fields p) ;;
+       if negb (dirlists_equal (df_dirs p) (df_dirs n)) then Err "inconsistent directives"
+       else Ok {| df_kind := df_kind p; df_name := df_name p; df_desc := first_desc (df_desc p) (df_desc n);
+                  df_fields := fs; df_ifaces := sort_union (df_ifaces p) (df_ifaces n);
+                  df_members := df_members p; df_enums := df_enums p; df_dirs := df_dirs p |}.
 
 Fixpoint replace_field (f : fielddef) (l : list fielddef) : list fielddef :=
   match l with
@@ -164,9 +168,10 @@ Definition merge_enums (p n : definition) : res definition :=
                                            else Ok {| ev_name := ev_name v; ev_desc := first_desc (ev_desc v) (ev_desc w);
                                                       ev_dirs := ev_dirs v |}
                                end) (df_enums p) ;;
-       Ok {| df_kind := df_kind p; df_name := df_name p; df_desc := first_desc (df_desc p) (df_desc n);
-             df_fields := df_fields p; df_ifaces := df_ifaces p; df_members := df_members p;
-             df_enums := vs; df_dirs := df_dirs p |}.
+       if negb (dirlists_equal (df_dirs p) (df_dirs n)) then Err "inconsistent directives"
+       else Ok {| df_kind := df_kind p; df_name := df_name p; df_desc := first_desc (df_desc p) (df_desc n);
+                  df_fields := df_fields p; df_ifaces := df_ifaces p; df_members := df_members p;
+                  df_enums := vs; df_dirs := df_dirs p |}.
 
 (* mergeScalars *)
 Definition merge_scalars (p n : definition) : res definition :=
@@ -179,7 +184,9 @@ Definition slices_equivalent (s1 s2 : list string) : bool :=
 
 (* mergeUnions *)
 Definition merge_unions (p n : definition) : res definition :=
-  if slices_equivalent (df_members p) (df_members n) then Ok p else Err "union members".
+  if slices_equivalent (df_members p) (df_members n)
+  then (if negb (dirlists_equal (df_dirs p) (df_dirs n)) then Err "inconsistent directives" else Ok p)
+  else Err "union members".
 
 (* the body of the loop over the definitions of one name in mergeSchemas (after the first) *)
 Definition merge2 (p n : definition) : res definition :=
